@@ -399,7 +399,7 @@ def rule_every_input_read(ctx, rep, modules=None, min_loops: int = 3):
         "`acc[k].append(x)`, add_result) neither breaks nor returns from inside (one empty or odd input must not end the reading of the "
         "rest); (b) an exception handler that swallows silently (no re-raise, nothing logged at warning level or above) does not enclose a "
         "whole loop over runs / files / findings -- the error of one element would silently drop all that follow it",
-        min_instances=3,
+        min_instances=2 * min_loops if min_loops < 3 else 3,
     )
     n = 0
     for fn in ctx.prog.live_functions():
